@@ -56,10 +56,11 @@ FAMILIES = [
     (r"^h_spawn_child", "spawn", []),
     (r"^h_fail_parent", "fail", []),
     (r"^h_fail_child", "fail", []),
-    (r"^h_(argv|ident|env)", "ident", []),
+    (r"^h_(argv|ident|env_dup$|env_two|exe_override)", "ident", []),
     (r"^h_(lookup|split)", "lookup", []),
     (r"^h_(life|wait)", "life", []),
     (r"^h_comm", "comm", []),
+    (r"^h_(build|shell|clone|set_|stdin_data|env_)", "builder", []),
 ]
 
 
